@@ -15,7 +15,8 @@ for lvs in pool[:k]:
     harness.STATS.__init__(); t = time.time()
     signal.alarm(tmo)
     try:
-        out = sweep.run_item((cfg, lvs, sweep.NAMINGS[len(lvs[0])][0], True, ["wellformed"]))
+        fam = (os.environ["FAM"],) if os.environ.get("FAM") else ()
+        out = sweep.run_item((cfg, lvs, sweep.NAMINGS[len(lvs[0])][0], True, ["wellformed"]) + fam)
         res = f"ok {len(out)}"
     except TO:
         res = "TIMEOUT"
